@@ -11,6 +11,57 @@ class AnalysisError(Exception):
 DEFAULT_ROOT = os.environ.get('PV_REPO', '/repo')
 
 
+
+class _Canon(ast.NodeTransformer):
+    """Canonical spelling of comparisons, applied to every parsed module so that no rule depends on it:
+    LITERAL <op> expr  ->  expr <mirrored op> LITERAL   (literal = constant or enums.<Class>.<MEMBER>; both operands are side-effect free);
+    not (a <op> b)     ->  a <negated op> b             (is, is not, in, not in; == and != only against a literal);
+    if not X: A else: B ->  if X: B else: A."""
+    MIRROR = {ast.Eq: ast.Eq, ast.NotEq: ast.NotEq, ast.Lt: ast.Gt, ast.Gt: ast.Lt, ast.LtE: ast.GtE, ast.GtE: ast.LtE, ast.Is: ast.Is, ast.IsNot: ast.IsNot}
+    NEG = {ast.Eq: ast.NotEq, ast.NotEq: ast.Eq, ast.Is: ast.IsNot, ast.IsNot: ast.Is, ast.In: ast.NotIn, ast.NotIn: ast.In}
+
+    @staticmethod
+    def _literal(e):
+        if isinstance(e, ast.Constant):
+            return True
+        if isinstance(e, ast.Attribute):
+            parts = []
+            x = e
+            while isinstance(x, ast.Attribute):
+                parts.append(x.attr)
+                x = x.value
+            return isinstance(x, ast.Name) and x.id == 'enums' and len(parts) == 2 and parts[0].isupper()
+        return False
+
+    def visit_Compare(self, node):
+        self.generic_visit(node)
+        if len(node.ops) == 1 and type(node.ops[0]) in self.MIRROR and self._literal(node.left) and not self._literal(node.comparators[0]):
+            new = ast.Compare(left=node.comparators[0], ops=[self.MIRROR[type(node.ops[0])]()], comparators=[node.left])
+            return ast.copy_location(new, node)
+        return node
+
+    def visit_If(self, node):
+        self.generic_visit(node)
+        # if not X: A else: B  ->  if X: B else: A   (every if with an else side)
+        if isinstance(node.test, ast.UnaryOp) and isinstance(node.test.op, ast.Not) and node.orelse:
+            return ast.copy_location(ast.If(test=node.test.operand, body=node.orelse, orelse=node.body), node)
+        # if a != b: A else: B  ->  if a == b: B else: A   (likewise is not / not in): one spelling for two-armed ifs
+        t = node.test
+        if isinstance(t, ast.Compare) and len(t.ops) == 1 and isinstance(t.ops[0], (ast.NotEq, ast.IsNot, ast.NotIn)) and node.orelse:
+            pos = ast.copy_location(ast.Compare(left=t.left, ops=[self.NEG[type(t.ops[0])]()], comparators=t.comparators), t)
+            return ast.copy_location(ast.If(test=pos, body=node.orelse, orelse=node.body), node)
+        return node
+
+    def visit_UnaryOp(self, node):
+        self.generic_visit(node)
+        if isinstance(node.op, ast.Not) and isinstance(node.operand, ast.Compare) and len(node.operand.ops) == 1 and type(node.operand.ops[0]) in self.NEG:
+            c = node.operand
+            if isinstance(c.ops[0], (ast.Eq, ast.NotEq)) and not (self._literal(c.left) or self._literal(c.comparators[0])):
+                return node     # == / != between two non-literals may run user-defined __eq__/__ne__: keep as written
+            return ast.copy_location(ast.Compare(left=c.left, ops=[self.NEG[type(c.ops[0])]()], comparators=c.comparators), node)
+        return node
+
+
 class SourceSet:
     def __init__(self, root=None, overlay=None):
         self.root = root or DEFAULT_ROOT
@@ -40,6 +91,7 @@ class SourceSet:
                 t = ast.parse(self.text(rel), filename=rel)
             except SyntaxError as e:
                 raise AnalysisError('cannot parse %s: %s' % (rel, e))
+            t = _Canon().visit(t)
             for n in ast.walk(t):
                 for c in ast.iter_child_nodes(n):
                     c._parent = n
